@@ -49,7 +49,9 @@ Definition sandbox_of (sb : sandboxes) (schema : string) : option string :=
 Definition denote (local_only : bool) (sb : sandboxes) (default : string) (raw : string) : option (path * bool) :=
   let u := parse_url raw in
   let tr := match p_comps (u_path u) with [] => true | _ => p_trail (u_path u) end in
-  if nonempty (u_schema u) then
+  if String.eqb (u_schema u) "pwd" then
+    (if nonempty (u_host u) then None else Some (url_comps default ++ p_comps (u_path u), tr))
+  else if nonempty (u_schema u) then
     match sandbox_of sb (u_schema u) with
     | Some base => if nonempty (u_host u) || (local_only && String.eqb (u_schema u) "client") then None
                    else Some (url_comps base ++ p_comps (u_path u), tr)
